@@ -41,11 +41,16 @@ package election
 //@   modifies *
 
 // The lease is expired exactly when an expiry time is recorded and the clock has passed it; Close() zeroes it.
+// A lease is valid only between a successful Grant / keep-alive and its Close: a lease that was given up (Close sets a
+// sticky flag) is expired whatever local deadline a late keep-alive answer stores afterwards, and a lease that was never
+// granted (no deadline yet - e.g. Grant failed) is expired too. (The first version of this contract had copied the
+// code's "no deadline => not expired" and so had written the defect into the specification.)
 //@ func (*lease).IsExpired
 //@   props C03
 //@   requires l.expireTime.v == nil || istime(l.expireTime.v)
-//@   ensures [never-granted] l.expireTime.v == nil ==> !result
-//@   ensures [granted] l.expireTime.v != nil ==> (result <==> lastnow() > unixnano(astime(l.expireTime.v)))
+//@   ensures [a-closed-lease-is-expired-whatever-the-deadline-says] l.closed == 1 ==> result
+//@   ensures [never-granted-means-expired] l.expireTime.v == nil ==> result
+//@   ensures [granted] l.closed != 1 && l.expireTime.v != nil ==> (result <==> lastnow() > unixnano(astime(l.expireTime.v)))
 //@   modifies nothing
 
 // Check: a leadership is valid iff a lease is present and not expired.
@@ -55,7 +60,8 @@ package election
 //@   option nilrecv
 //@   ensures [nil] ls == nil ==> !result
 //@   ensures [nolease] ls != nil && (ls.lease.v == nil || curLease(ls) == nil) ==> !result
-//@   ensures [valid] ls != nil && ls.lease.v != nil && curLease(ls) != nil && curLease(ls).expireTime.v != nil ==> (result <==> !(lastnow() > unixnano(astime(curLease(ls).expireTime.v))))
+//@   ensures [valid] ls != nil && ls.lease.v != nil && curLease(ls) != nil && curLease(ls).expireTime.v != nil && curLease(ls).closed != 1 ==> (result <==> !(lastnow() > unixnano(astime(curLease(ls).expireTime.v))))
+//@   ensures [a-closed-or-never-granted-lease-gives-no-leadership] ls != nil && ls.lease.v != nil && curLease(ls) != nil && (curLease(ls).closed == 1 || curLease(ls).expireTime.v == nil) ==> !result
 //@   option event Check
 //@   modifies ghost evres
 
@@ -63,9 +69,9 @@ package election
 // etcd side - otherwise another member could win a campaign while this one still passes Check().
 //@ func (*lease).Close
 //@   props C03
-//@   ensures closed(l)
-//@   at Revoke 1 assert [locally-expired-before-the-record-is-revoked] closed(l)
-//@   modifies l.expireTime.v
+//@   ensures closed(l) && l.closed == 1
+//@   at Revoke 1 assert [locally-expired-before-the-record-is-revoked] closed(l) && l.closed == 1
+//@   modifies l.expireTime.v, l.closed
 
 // The keep-alive worker's inner request (one goroutine per tick, verified on its own): the local deadline handed to the
 // lease is computed from a clock reading taken BEFORE the keep-alive request was sent, plus the TTL the server granted
